@@ -826,11 +826,17 @@ class Sym:
                     e = [x for n_, x in e[3] if n_ == name][0]
                 elif e[0] == "awaitv" and name == "0":
                     e = ("await", e[1])
+                elif e[0] == "tryv" and name == "0":
+                    e = ("try", e[1])
+                elif e[0] == "tryerr" and name == "0":
+                    e = ("tryerr", e[1])
                 else:
                     e = ("field", e, name)
             elif pr.startswith("@"):
                 if e[0] == "poll" and pr[1:] == "Ready":
                     e = ("awaitv", e[1])
+                elif e[0] == "call" and len(e[2]) == 1 and e[1].endswith("::Try>::branch") and pr[1:] in ("Continue", "Break"):
+                    e = ("tryv" if pr[1:] == "Continue" else "tryerr", e[2][0])
                 elif e[0] == "agg" and e[2] == pr[1:]:
                     pass
                 else:
@@ -884,7 +890,7 @@ class Sym:
 
 def expr_children(e):
     k = e[0]
-    if k in ("field", "variant", "index", "mutated", "proj?", "discr", "poll", "await", "awaitv"):
+    if k in ("field", "variant", "index", "mutated", "proj?", "discr", "poll", "await", "awaitv", "try", "tryv", "tryerr"):
         return (e[1],)
     if k in ("un", "cast"):
         return (e[2],)
@@ -954,6 +960,10 @@ def expr_str(e, depth=0):
         return "mut " + expr_str(e[1], depth + 1)
     if k in ("poll", "await", "awaitv"):
         return "%s(%s)" % (k, expr_str(e[1], depth + 1))
+    if k in ("try", "tryv"):
+        return "%s?" % expr_str(e[1], depth + 1)
+    if k == "tryerr":
+        return "err(%s)" % expr_str(e[1], depth + 1)
     return str(e)
 
 
